@@ -15,6 +15,9 @@ from .core import VERIF_DIR, HarnessError, derive_seed
 PY312 = "/venv/bin/python"
 PY311 = "/usr/bin/python3.11"
 
+# interpreter start-up flags a template may run under (index stored as `opt` in the template identity)
+PYFLAGS = {0: [], 1: ["-O"], 2: ["-X", "dev"], 3: ["-W", "error"], 4: ["-OO"]}
+
 _BOOT = (
     "import sys; sys.path.insert(0, %r); from sim import worker; sys.exit(worker.main(sys.argv[1:]))" % VERIF_DIR
 )
@@ -57,9 +60,10 @@ class Worker:
             "PYTHONDONTWRITEBYTECODE": "1",
             "LC_ALL": "C.UTF-8",
             "VERIF_HEAP_PAD": str(self.pad),
+            "VERIF_PYFLAGS_INDEX": str(self.opt),
         }
         self.proc = subprocess.Popen(
-            _noaslr_prefix() + [exe, "-P"] + (["-O"] if self.opt else []) + ["-c", _BOOT, "--repo", repo, "--id", str(wid)],
+            _noaslr_prefix() + [exe, "-P"] + PYFLAGS.get(self.opt, []) + ["-c", _BOOT, "--repo", repo, "--id", str(wid)],
             stdin=subprocess.PIPE, stdout=subprocess.PIPE, stderr=self.log, env=env, cwd=os.path.join(logdir, "cwd"),
             text=True, encoding="utf-8", bufsize=1,
         )
